@@ -452,4 +452,486 @@ theorem parseDesc_emitDesc (doc : Str) (ret : Option Ret) (hd : docOk doc = true
       simp only [e, parseDesc, splitNl_append_nl, h1, h2, h3, h4, join_splitNl]
       simp [expectedRet]
 
+/-! ### a property object and what the parser reads from it -/
+
+/-- `all(filter(str.isalpha, maybe_enum))` is always `True`: an alphabetic string is non-empty, hence truthy -/
+theorem maybeEnum_always (ms : List Str) : maybeEnumOk ms = true := by
+  simp only [maybeEnumOk, List.all_eq_true, List.mem_filter]
+  intro m hm
+  have := hm.2
+  simp only [isalpha, Bool.and_eq_true] at this
+  exact this.1
+
+theorem emitProp_eq (p : Param) :
+    (emitProp p).1 = .obj (propKvs (emittedDefault p) p.doc (emitType p.typ).1 (emitType p.typ).2) := rfl
+
+theorem emitProp_required (p : Param) : (emitProp p).2 = !p.typ.optional := rfl
+
+section lookups
+variable (dflt : Option J) (doc : Option Str) (ty : Str) (pat : Option Str)
+
+theorem lookup_default : lookup js!"default" (propKvs dflt doc ty pat) = dflt := by
+  cases dflt <;> cases doc <;> cases pat <;> simp [propKvs, dfltKvs, docKvs, patKvs, lookup] <;> split <;> simp [lookup]
+
+theorem lookup_description :
+    lookup js!"description" (propKvs dflt doc ty pat) = doc.bind (fun d => if d.isEmpty then none else some (.str d)) := by
+  cases dflt <;> cases doc <;> cases pat <;> simp [propKvs, dfltKvs, docKvs, patKvs, lookup] <;> split <;> simp [lookup]
+
+theorem lookup_doc :
+    lookup js!"doc" (propKvs dflt doc ty pat) = doc.bind (fun d => if d.isEmpty then some (.str d) else none) := by
+  cases dflt <;> cases doc <;> cases pat <;> simp [propKvs, dfltKvs, docKvs, patKvs, lookup] <;> split <;> simp [lookup]
+
+theorem lookup_type : lookup js!"type" (propKvs dflt doc ty pat) = some (.str ty) := by
+  cases dflt <;> cases doc <;> cases pat <;> simp [propKvs, dfltKvs, docKvs, patKvs, lookup] <;> split <;> simp [lookup]
+
+theorem lookup_pattern : lookup js!"pattern" (propKvs dflt doc ty pat) = pat.map .str := by
+  cases dflt <;> cases doc <;> cases pat <;> simp [propKvs, dfltKvs, docKvs, patKvs, lookup] <;> split <;> simp [lookup]
+
+theorem no_outOfFragment : outOfFragment.any (fun k => hasKey k (propKvs dflt doc ty pat)) = false := by
+  cases dflt <;> cases doc <;> cases pat <;> simp [propKvs, dfltKvs, docKvs, patKvs, outOfFragment, hasKey, lookup] <;> split <;> simp [lookup]
+
+theorem all_consumed : (propKvs dflt doc ty pat).filter (fun kv => !consumed.contains kv.1) = [] := by
+  cases dflt <;> cases doc <;> cases pat <;> simp [propKvs, dfltKvs, docKvs, patKvs, consumed] <;> split <;> simp
+
+end lookups
+
+/-- the type string after the `pattern` step -/
+def typAfterPattern (tn : Str) (pat : Option Str) : Str :=
+  match pat with
+  | none => tn
+  | some s => literalOf (splitBar s)
+
+theorem parseProp_propKvs (required : List Str) (name : Str) (dflt : Option J) (doc : Option Str) (ty tn : Str)
+    (pat : Option Str) (hty : ty.isEmpty = false) (htn : lookup ty jsonType2typ = some tn)
+    (hpat : ∀ s, pat = some s → s.isEmpty = false) :
+    parseProp required name (.obj (propKvs dflt doc ty pat)) =
+      .ok { typ := some (wrapOpt required name (typAfterPattern tn pat)), doc := doc.map J.str,
+            default := dflt.map normDefaultJ, extra := [] } := by
+  have hdoc : pickDoc (propKvs dflt doc ty pat) = doc.map J.str := by
+    unfold pickDoc
+    rw [lookup_description, lookup_doc]
+    cases doc with
+    | none => rfl
+    | some d =>
+      by_cases h : d = []
+      · subst h; rfl
+      · simp [h]
+  have htype : ∀ typ0, typeStep typ0 (lookup js!"type" (propKvs dflt doc ty pat)) = .ok (some tn, []) := by
+    intro typ0
+    rw [lookup_type]
+    simp [typeStep, J.truthy, hty, htn]
+  have hpattern : patternStep (some tn) (lookup js!"pattern" (propKvs dflt doc ty pat)) =
+      .ok (some (typAfterPattern tn pat), []) := by
+    rw [lookup_pattern]
+    cases pat with
+    | none => rfl
+    | some s => simp [patternStep, J.truthy, hpat s rfl, maybeEnum_always, typAfterPattern]
+  unfold parseProp
+  simp only [no_outOfFragment, htype, hpattern, hdoc, lookup_default, all_consumed]
+  simp
+
+/-! ### the emitted property, parsed back -/
+
+/-- `Literal` members in sorted order (what the emitter's `sorted` leaves of the member order) -/
+def normTyp (t : Typ) : Typ :=
+  { t with core := match t.core with | .lit ms => .lit (sortStrs ms) | c => c }
+
+def expectedParam (p : Param) : PParam :=
+  { typ := some (normTyp p.typ).render, doc := p.doc.map J.str, default := emittedDefault p, extra := [] }
+
+/-- **table facts** (over the REGENERATED tables): every base name has a JSON type, which is one of the seven simple
+    types of the meta-schema and maps back to the same name; `str` (the type of `Literal` members) too. -/
+theorem base_tables (b : Base) :
+    (jsonTypeOf b.name).isEmpty = false ∧ lookup (jsonTypeOf b.name) jsonType2typ = some b.name ∧
+    simpleTypes.contains (jsonTypeOf b.name) = true := by
+  cases b <;> decide
+
+theorem base_name_facts (b : Base) : b.name.isEmpty = false ∧ Py.contains b.name js!"Optional[" = false := by
+  cases b <;> decide
+
+theorem normDefault_emitted (p : Param) : (emittedDefault p).map normDefaultJ = emittedDefault p := by
+  unfold emittedDefault
+  cases p.default with
+  | none => rfl
+  | some d =>
+    cases d with
+    | none => simp [Default.isNone]; decide
+    | str s =>
+      by_cases h : s ∈ noneTypeStrs
+      · simp [Default.isNone, h]
+      · simp [Default.isNone, h, Default.toJ, normDefaultJ]
+    | int i => simp [Default.isNone, Default.toJ, normDefaultJ]
+    | float r => simp [Default.isNone, Default.toJ, normDefaultJ]
+    | bool b => simp [Default.isNone, Default.toJ, normDefaultJ]
+
+theorem join_ne_nil (sep : Str) (l : List Str) (hne : l ≠ []) (h : ∀ x ∈ l, x ≠ []) : join sep l ≠ [] := by
+  cases l with
+  | nil => exact absurd rfl hne
+  | cons x xs =>
+    have hx := h x (by simp)
+    cases xs with
+    | nil => simpa [join] using hx
+    | cons y ys => simp [join, hx]
+
+theorem literalOf_facts (ms : List Str) (h : ∀ m ∈ ms, ∀ c ∈ m, wordChar c = true) :
+    (literalOf ms).isEmpty = false ∧ Py.contains (literalOf ms) js!"Optional[" = false := by
+  constructor
+  · simp [literalOf]
+  · have hrest : '[' ∉ join js!", " (ms.map quote) ++ js!"]" := by
+      intro hm
+      simp only [List.mem_append] at hm
+      rcases hm with hm | hm
+      · rcases mem_join _ _ _ hm with hc | ⟨q, hq, hcq⟩
+        · revert hc; decide
+        · obtain ⟨m, hm', rfl⟩ := List.mem_map.mp hq
+          simp only [quote, List.mem_cons, List.mem_append, List.not_mem_nil, or_false] at hcq
+          rcases hcq with hc | hc | hc
+          · revert hc; decide
+          · exact (wordChar_ne _ (h m hm' _ hc)).2.2.2 rfl
+          · revert hc; decide
+      · revert hm; decide
+    have := not_contains_of_missing_char _ js!"Optional[" '[' (by decide) hrest
+    simp only [literalOf, List.append_assoc]
+    simp [Py.contains, List.isPrefixOf_cons_cons]
+    simpa [List.append_assoc] using this
+
+theorem parseProp_emitProp (required : List Str) (name : Str) (p : Param) (hok : p.typ.ok = true)
+    (hreq : required.contains name = !p.typ.optional) :
+    parseProp required name (emitProp p).1 = .ok (expectedParam p) := by
+  rw [emitProp_eq]
+  cases hc : p.typ.core with
+  | base b =>
+    obtain ⟨h1, h2, _⟩ := base_tables b
+    obtain ⟨h3, h4⟩ := base_name_facts b
+    have het : emitType p.typ = (jsonTypeOf b.name, none) := by simp [emitType, hc]
+    rw [het, parseProp_propKvs required name _ _ _ b.name none h1 h2 (by simp), normDefault_emitted]
+    simp only [expectedParam, typAfterPattern, wrapOpt, hreq, normTyp, hc, Typ.render, Core.render]
+    cases p.typ.optional <;> simp [h3, h4]
+  | lit ms =>
+    simp only [Typ.ok, hc, Bool.and_eq_true] at hok
+    have hmem : ∀ m ∈ sortStrs ms, ∀ c ∈ m, wordChar c = true :=
+      fun m hm c hcm => member_chars ms hok.2 m ((mem_sortStrs m ms).mp hm) c hcm
+    have hne : sortStrs ms ≠ [] := by
+      intro e; have := (sortStrs_eq_nil ms).mp e; simp [this] at hok
+    have hnobar : ∀ m ∈ sortStrs ms, '|' ∉ m := fun m hm hbar => (wordChar_ne _ (hmem m hm _ hbar)).2.2.1 rfl
+    have hnonempty : ∀ m ∈ sortStrs ms, m ≠ [] := by
+      intro m hm e
+      have := List.all_eq_true.mp hok.2 m ((mem_sortStrs m ms).mp hm)
+      simp [memberOk, e] at this
+    have hpatne : (patternOf ms).isEmpty = false := by
+      have := join_ne_nil ['|'] (sortStrs ms) hne hnonempty
+      simpa [patternOf] using this
+    have het : emitType p.typ = (jsonTypeOf js!"str", some (patternOf ms)) := by simp [emitType, hc]
+    have hs1 : (jsonTypeOf js!"str").isEmpty = false := by decide
+    have hs2 : lookup (jsonTypeOf js!"str") jsonType2typ = some js!"str" := by decide
+    rw [het, parseProp_propKvs required name _ _ (jsonTypeOf js!"str") js!"str" (some (patternOf ms)) hs1 hs2
+      (by intro s hs; cases hs; exact hpatne), normDefault_emitted]
+    obtain ⟨h3, h4⟩ := literalOf_facts (sortStrs ms) hmem
+    simp only [expectedParam, typAfterPattern, patternOf, splitBar_join _ hne hnobar, wrapOpt, hreq, normTyp, hc,
+      Typ.render, Core.render]
+    have hlit : js!"Literal[" ++ join js!", " ((sortStrs ms).map quote) ++ js!"]" = literalOf (sortStrs ms) := rfl
+    rw [hlit]
+    cases p.typ.optional <;> simp [h3, h4]
+
+/-! ### the whole schema, parsed back -/
+
+def expected (ir : IR) : PIR :=
+  { name := none, doc := ir.doc, params := ir.params.map (fun np => (np.1, expectedParam np.2)),
+    returns := ir.returns.map expectedRet }
+
+theorem requiredSet_strs (l : List Str) : requiredSet (some (.arr (l.map J.str))) = .ok l := by
+  have h1 : ∀ ys : List Str, (ys.map J.str).any J.isNested = false := by
+    intro ys; induction ys with
+    | nil => rfl
+    | cons y ys ih => simp [J.isNested, ih]
+  have h2 : ∀ ys : List Str, (ys.map J.str).filterMap J.str? = ys := by
+    intro ys; induction ys with
+    | nil => rfl
+    | cons y ys ih => simpa [J.str?] using ih
+  cases l with
+  | nil => simp [requiredSet, J.truthy]
+  | cons x xs =>
+    simp only [requiredSet, J.truthy, h1 (x :: xs), h2 (x :: xs)]
+    simp
+
+theorem mem_emitRequired (ps : List (Str × Param)) (n : Str) :
+    n ∈ emitRequired ps ↔ ∃ p, (n, p) ∈ ps ∧ p.typ.optional = false := by
+  simp only [emitRequired, List.mem_map, List.mem_filter, emitProp_required]
+  constructor
+  · rintro ⟨⟨n', p⟩, ⟨hm, ho⟩, rfl⟩; exact ⟨p, hm, by simpa using ho⟩
+  · rintro ⟨p, hm, ho⟩; exact ⟨(n, p), ⟨hm, by simp [ho]⟩, rfl⟩
+
+theorem nodup_fst_unique {α} (ps : List (Str × α)) (hnd : (ps.map (·.1)).Nodup) (a b : Str × α)
+    (ha : a ∈ ps) (hb : b ∈ ps) (h : a.1 = b.1) : a = b := by
+  induction ps with
+  | nil => cases ha
+  | cons x xs ih =>
+    simp only [List.map_cons, List.nodup_cons, List.mem_map, not_exists, not_and] at hnd
+    simp only [List.mem_cons] at ha hb
+    rcases ha with rfl | ha <;> rcases hb with rfl | hb
+    · rfl
+    · exact absurd h.symm (hnd.1 b hb)
+    · exact absurd h (hnd.1 a ha)
+    · exact ih hnd.2 ha hb
+
+theorem required_contains (ps : List (Str × Param)) (hnd : (ps.map (·.1)).Nodup) :
+    ∀ np ∈ ps, (emitRequired ps).contains np.1 = !np.2.typ.optional := by
+  intro np hnp
+  cases ho : np.2.typ.optional with
+  | false =>
+    simp only [Bool.not_false, List.contains_iff_mem]
+    exact (mem_emitRequired ps np.1).mpr ⟨np.2, hnp, ho⟩
+  | true =>
+    simp only [Bool.not_true]
+    cases hc : (emitRequired ps).contains np.1 with
+    | false => rfl
+    | true =>
+      obtain ⟨p, hm, hpo⟩ := (mem_emitRequired ps np.1).mp (List.contains_iff_mem.mp hc)
+      have := nodup_fst_unique ps hnd (np.1, p) np hm hnp rfl
+      rw [← this] at ho
+      simp [hpo] at ho
+
+theorem parseProps_emitProps (required : List Str) (ps : List (Str × Param))
+    (hok : ∀ np ∈ ps, np.2.typ.ok = true) (hreq : ∀ np ∈ ps, required.contains np.1 = !np.2.typ.optional) :
+    parseProps required (emitProps ps) = .ok (ps.map (fun np => (np.1, expectedParam np.2))) := by
+  induction ps with
+  | nil => rfl
+  | cons x xs ih =>
+    have hx := parseProp_emitProp required x.1 x.2 (hok x (by simp)) (hreq x (by simp))
+    have hxs := ih (fun np h => hok np (by simp [h])) (fun np h => hreq np (by simp [h]))
+    simp only [emitProps, List.map_cons] at hxs ⊢
+    simp [parseProps, hx, hxs]
+
+theorem IR.ok_params (ir : IR) (h : ir.ok = true) : ∀ np ∈ ir.params, np.2.typ.ok = true := by
+  intro np hnp
+  simp only [IR.ok, Bool.and_eq_true] at h
+  have := List.all_eq_true.mp h.1.2 np hnp
+  simp only [paramOk, Bool.and_eq_true] at this
+  exact this.1
+
+theorem IR.ok_doc (ir : IR) (h : ir.ok = true) : docOk ir.doc = true := by
+  simp only [IR.ok, Bool.and_eq_true] at h
+  exact h.1.1.2
+
+theorem IR.ok_ret (ir : IR) (h : ir.ok = true) : ∀ r, ir.returns = some r → retOk r = true := by
+  intro r hr
+  simp only [IR.ok, Bool.and_eq_true, hr] at h
+  exact h.2
+
+/-- **parse ∘ emit, exactly**: the parser reads back the parameters in order with their docs, the defaults the
+    emitter kept, the type strings with `Literal` members in sorted order, the header prose and the return entry. -/
+theorem parse_emitT (ir : IR) (hok : ir.ok = true) (hnd : (ir.params.map (·.1)).Nodup) :
+    parse (emitT ir) = .ok (expected ir) := by
+  have hprops := parseProps_emitProps (emitRequired ir.params) ir.params (IR.ok_params ir hok) (required_contains ir.params hnd)
+  have hdesc := parseDesc_emitDesc ir.doc ir.returns (IR.ok_doc ir hok) (IR.ok_ret ir hok)
+  have hreq := requiredSet_strs (emitRequired ir.params)
+  simp [parse, emitT, lookup, hprops, hdesc, hreq, expected]
+
+/-! ### validity of the emitted schema -/
+
+theorem uniqueStrs_of_nodup (l : List Str) (h : l.Nodup) : uniqueStrs (l.map J.str) = true := by
+  induction l with
+  | nil => rfl
+  | cons x xs ih =>
+    simp only [List.nodup_cons] at h
+    have hx : (xs.map J.str).contains (J.str x) = false := by
+      cases hc : (xs.map J.str).contains (J.str x) with
+      | false => rfl
+      | true =>
+        obtain ⟨y, hy, e⟩ := List.mem_map.mp (List.contains_iff_mem.mp hc)
+        cases e
+        exact absurd hy h.1
+    simp [uniqueStrs, J.isStr, ih h.2, h.1]
+
+theorem emitRequired_nodup (ps : List (Str × Param)) (hnd : (ps.map (·.1)).Nodup) : (emitRequired ps).Nodup := by
+  unfold emitRequired
+  exact List.Nodup.sublist (List.Sublist.map _ List.filter_sublist) hnd
+
+theorem validKvs_append (a b : List (Str × J)) : validKvs (a ++ b) = (validKvs a && validKvs b) := by
+  induction a with
+  | nil => simp [validKvs]
+  | cons x xs ih =>
+    obtain ⟨k, v⟩ := x
+    rw [List.cons_append, validKvs.eq_2, validKvs.eq_2, ih, Bool.and_assoc]
+
+theorem validKw_of_ne_properties (k : Str) (v : J) (h : k ≠ js!"properties") : validKw k v = kwCheck k v := by
+  cases v <;> simp [validKw, h]
+
+theorem validKvs_propKvs (dflt : Option J) (doc : Option Str) (ty : Str) (pat : Option Str)
+    (hty : simpleTypes.contains ty = true) (hpat : ∀ s, pat = some s → s.all patChar = true) :
+    validKvs (propKvs dflt doc ty pat) = true := by
+  have h1 : validKvs (dfltKvs dflt) = true := by
+    cases dflt with
+    | none => rfl
+    | some d =>
+      show validKvs [(js!"default", d)] = true
+      rw [validKvs.eq_2, validKw_of_ne_properties _ _ (by decide)]; simp [kwCheck, validKvs]
+  have h2 : validKvs (docKvs doc) = true := by
+    cases doc with
+    | none => rfl
+    | some d =>
+      show validKvs (if d.isEmpty = true then [(js!"doc", .str d)] else [(js!"description", .str d)]) = true
+      by_cases h : d.isEmpty = true
+      · rw [if_pos h, validKvs.eq_2, validKw_of_ne_properties _ _ (by decide)]; simp [kwCheck, validKvs]
+      · rw [if_neg h, validKvs.eq_2, validKw_of_ne_properties _ _ (by decide)]; simp [kwCheck, validKvs, J.isStr]
+  have h3 : validKvs [(js!"type", .str ty)] = true := by
+    rw [validKvs.eq_2, validKw_of_ne_properties _ _ (by decide)]
+    simp [kwCheck, validKvs, typeOk, List.contains_iff_mem.mp hty]
+  have h4 : validKvs (patKvs pat) = true := by
+    cases pat with
+    | none => rfl
+    | some s =>
+      have := List.all_eq_true.mp (hpat s rfl)
+      show validKvs [(js!"pattern", .str s)] = true
+      rw [validKvs.eq_2, validKw_of_ne_properties _ _ (by decide)]; simp [kwCheck, validKvs, patternOk]; exact this
+  simp only [propKvs, validKvs_append, h1, h2, h3, h4, Bool.and_self]
+
+theorem patternOf_patChars (ms : List Str) (h : ms.all memberOk = true) : (patternOf ms).all patChar = true := by
+  simp only [List.all_eq_true, patternOf]
+  intro c hc
+  rcases mem_join _ _ _ hc with hc | ⟨m, hm, hcm⟩
+  · simp at hc; subst hc; decide
+  · have := member_chars ms h m ((mem_sortStrs m ms).mp hm) c hcm
+    simp only [wordChar, Bool.or_eq_true] at this
+    simp only [patChar, Bool.or_eq_true]
+    rcases this with (h | h) | h
+    · exact Or.inl (Or.inl (Or.inl (Or.inl h)))
+    · exact Or.inl (Or.inl (Or.inl (Or.inr h)))
+    · exact Or.inl (Or.inl (Or.inr h))
+
+theorem validSchema_emitProp (p : Param) (hok : p.typ.ok = true) : validSchema (emitProp p).1 = true := by
+  rw [emitProp_eq]
+  simp only [validSchema]
+  apply validKvs_propKvs
+  · cases hc : p.typ.core with
+    | base b => simp only [emitType, hc]; exact (base_tables b).2.2
+    | lit ms => simp only [emitType, hc]; decide
+  · intro s hs
+    cases hc : p.typ.core with
+    | base b => simp [emitType, hc] at hs
+    | lit ms =>
+      simp only [emitType, hc, Option.some.injEq] at hs
+      subst hs
+      simp only [Typ.ok, hc, Bool.and_eq_true] at hok
+      exact patternOf_patChars ms hok.2
+
+theorem validProps_emitProps (ps : List (Str × Param)) (hok : ∀ np ∈ ps, np.2.typ.ok = true) :
+    validProps (emitProps ps) = true := by
+  induction ps with
+  | nil => rfl
+  | cons x xs ih =>
+    have := ih (fun np h => hok np (by simp [h]))
+    simp only [emitProps, List.map_cons] at this ⊢
+    simp [validProps, validSchema_emitProp x.2 (hok x (by simp)), this]
+
+theorem identChar_ne_hash (c : Char) (h : identChar c = true) : c ≠ '#' := by
+  intro e; subst e; revert h; decide
+
+theorem idOk_idOf (name : Option Str) (h : ∀ n, name = some n → n.all identChar = true) :
+    idOk (.str (idOf name)) = true := by
+  have hall : ∀ c ∈ idOf name, (decide (c ≠ '#')) = true := by
+    intro c hc
+    simp only [idOf, List.mem_append] at hc
+    rcases hc with (hc | hc) | hc
+    · have : (js!"https://offscale.io/").all (fun c => decide (c ≠ '#')) = true := by decide
+      exact List.all_eq_true.mp this c hc
+    · cases name with
+      | none =>
+        have : (js!"None").all (fun c => decide (c ≠ '#')) = true := by decide
+        exact List.all_eq_true.mp this c hc
+      | some n =>
+        have := List.all_eq_true.mp (h n rfl) c hc
+        simpa using identChar_ne_hash c this
+    · have : (js!".schema.json").all (fun c => decide (c ≠ '#')) = true := by decide
+      exact List.all_eq_true.mp this c hc
+  simp only [idOk]
+  rw [dropWhile_all _ _ hall]
+  rfl
+
+theorem IR.ok_name (ir : IR) (h : ir.ok = true) : ∀ n, ir.name = some n → n.all identChar = true := by
+  intro n hn
+  simp only [IR.ok, Bool.and_eq_true, hn] at h
+  exact h.1.1.1
+
+theorem validSchema_emitT (ir : IR) (hok : ir.ok = true) (hnd : (ir.params.map (·.1)).Nodup) :
+    validSchema (emitT ir) = true := by
+  have h1 := idOk_idOf ir.name (IR.ok_name ir hok)
+  have h2 := validProps_emitProps ir.params (IR.ok_params ir hok)
+  have h3 := uniqueStrs_of_nodup _ (emitRequired_nodup ir.params hnd)
+  simp only [emitT, validSchema]
+  rw [validKvs.eq_2, validKvs.eq_2, validKvs.eq_2, validKvs.eq_2, validKvs.eq_2, validKvs.eq_2, validKvs.eq_1,
+    validKw_of_ne_properties _ _ (by decide), validKw_of_ne_properties _ _ (by decide),
+    validKw_of_ne_properties _ _ (by decide), validKw_of_ne_properties _ _ (by decide),
+    validKw_of_ne_properties js!"required" _ (by decide)]
+  simp only [validKw, if_true, h2]
+  simp [kwCheck, h1, h3, J.isStr, typeOk, simpleTypes]
+
+/-! ### patterns and defaults -/
+
+/-- what the emitted pattern accepts (`re.search`): exactly the strings that *contain* a member -/
+theorem patAccepts_patternOf (ms : List Str) (hne : ms ≠ []) (hok : ms.all memberOk = true) (s : Str) :
+    patAccepts (patternOf ms) s = true ↔ ∃ m ∈ ms, isInfix m s = true := by
+  have hne' : sortStrs ms ≠ [] := fun e => hne ((sortStrs_eq_nil ms).mp e)
+  have hnobar : ∀ m ∈ sortStrs ms, '|' ∉ m := fun m hm hbar =>
+    (wordChar_ne _ (member_chars ms hok m ((mem_sortStrs m ms).mp hm) _ hbar)).2.2.1 rfl
+  simp only [patAccepts, patternOf, splitBar_join _ hne' hnobar, List.any_eq_true]
+  constructor
+  · rintro ⟨m, hm, h⟩; exact ⟨m, (mem_sortStrs m ms).mp hm, h⟩
+  · rintro ⟨m, hm, h⟩; exact ⟨m, (mem_sortStrs m ms).mpr hm, h⟩
+
+theorem validates_default (p : Param) (hok : paramOk p = true) (d : J) (hd : emittedDefault p = some d) :
+    validates (emitProp p).1 d = true := by
+  simp only [paramOk, Bool.and_eq_true] at hok
+  obtain ⟨htyp, hdef⟩ := hok
+  rw [emitProp_eq]
+  unfold validates
+  simp only [lookup_type, lookup_pattern]
+  unfold emittedDefault at hd
+  cases hpd : p.default with
+  | none => simp [hpd] at hd
+  | some d0 =>
+    rw [hpd] at hdef
+    simp only [hpd, Option.bind_some] at hd
+    cases d0 with
+    | none =>
+      have : Default.none.isNone = true := by decide
+      simp [this] at hd
+    | int i =>
+      simp only [Default.isNone, Bool.false_eq_true, if_false, Option.some.injEq, Default.toJ] at hd
+      subst hd
+      simp only [typedDefault, Bool.or_eq_true, decide_eq_true_eq] at hdef
+      have e1 : jsonTypeOf js!"int" = js!"integer" := by decide
+      have e2 : jsonTypeOf js!"float" = js!"number" := by decide
+      rcases hdef with hc | hc <;> simp [emitType, hc, Base.name, e1, e2, typeAccepts]
+    | float r =>
+      simp only [Default.isNone, Bool.false_eq_true, if_false, Option.some.injEq, Default.toJ] at hd
+      subst hd
+      simp only [typedDefault, Bool.and_eq_true, decide_eq_true_eq] at hdef
+      have e2 : jsonTypeOf js!"float" = js!"number" := by decide
+      simp [emitType, hdef.1, Base.name, e2, typeAccepts]
+    | bool b =>
+      simp only [Default.isNone, Bool.false_eq_true, if_false, Option.some.injEq, Default.toJ] at hd
+      subst hd
+      simp only [typedDefault, decide_eq_true_eq] at hdef
+      have e2 : jsonTypeOf js!"bool" = js!"boolean" := by decide
+      simp [emitType, hdef, Base.name, e2, typeAccepts]
+    | str s =>
+      have e2 : jsonTypeOf js!"str" = js!"string" := by decide
+      by_cases hn : (Default.str s).isNone = true
+      · simp [hn] at hd
+      · simp only [hn, Bool.false_eq_true, if_false, Option.some.injEq, Default.toJ] at hd
+        subst hd
+        simp only [typedDefault, Bool.or_eq_true, decide_eq_true_eq] at hdef
+        rcases hdef with hc | hc
+        · simp [emitType, hc, Base.name, e2, typeAccepts, J.isStr]
+        · cases hcore : p.typ.core with
+          | base b => simp [hcore] at hc
+          | lit ms =>
+            simp only [hcore] at hc
+            simp only [Typ.ok, hcore, Bool.and_eq_true] at htyp
+            have hne : ms ≠ [] := by intro e; simp [e] at htyp
+            have hacc := (patAccepts_patternOf ms hne htyp.2 s).mpr
+              ⟨s, List.contains_iff_mem.mp hc, contains_self s⟩
+            simp [emitType, hcore, e2, typeAccepts, J.isStr, hacc]
+
 end JsonSchema
